@@ -34,6 +34,7 @@ type c11call struct {
 	Seq    byte // header fields of forwarded frames
 	Sys    byte
 	Comp   byte
+	Compat byte // compatibility flags of forwarded v2 frames (third-party authors use them)
 	Frame  bool
 	V1     bool
 }
@@ -283,7 +284,10 @@ func c11scenario(rep *vh.Report, seed uint64, idx int) {
 					if v1 {
 						fr = &frame.V1Frame{SequenceNumber: c.Seq, SystemID: c.Sys, ComponentID: c.Comp, Message: msg}
 					} else {
-						f2 := &frame.V2Frame{SequenceNumber: c.Seq, SystemID: c.Sys, ComponentID: c.Comp, Message: msg}
+						if gr.Chance(1, 2) {
+							c.Compat = gr.Byte()
+						}
+						f2 := &frame.V2Frame{SequenceNumber: c.Seq, SystemID: c.Sys, ComponentID: c.Comp, CompatibilityFlag: c.Compat, Message: msg}
 						if gr.Chance(1, 4) {
 							// a frame that came from a signed link and had its signed flag cleared by the application: the left-over
 							// signature fields are not part of an unsigned frame
@@ -294,7 +298,7 @@ func c11scenario(rep *vh.Report, seed uint64, idx int) {
 						fr = f2
 					}
 					if raw, ok := msg.(*message.MessageRaw); ok {
-						sp := &ref.FrameSpec{Version: 2, Seq: c.Seq, Sys: c.Sys, Comp: c.Comp, MsgID: raw.ID, Payload: raw.Payload}
+						sp := &ref.FrameSpec{Version: 2, Seq: c.Seq, Sys: c.Sys, Comp: c.Comp, Compat: c.Compat, MsgID: raw.ID, Payload: raw.Payload}
 						crc := uidLayout.CRCExtra
 						if v1 {
 							sp.Version = 1
@@ -476,7 +480,7 @@ func c11scenario(rep *vh.Report, seed uint64, idx int) {
 			}
 			// headers: forwarded frames keep their own, originated messages get the link's
 			if c.Frame {
-				if f.Seq != c.Seq || f.Sys != c.Sys || f.Comp != c.Comp || (f.Version == 1) != c.V1 {
+				if f.Seq != c.Seq || f.Sys != c.Sys || f.Comp != c.Comp || (f.Version == 1) != c.V1 || f.Compat != c.Compat {
 					rep.Violation("what=header ep=custom", "a forwarded frame did not keep its own header fields / version",
 						map[string]interface{}{"got": []int{int(f.Seq), int(f.Sys), int(f.Comp), f.Version}, "want": []int{int(c.Seq), int(c.Sys), int(c.Comp)}})
 				}
@@ -1200,6 +1204,15 @@ func c11closeOrder(rep *vh.Report, seed uint64, idx int) {
 	r := vh.Sub(seed, fmt.Sprintf("c11-closeorder-%d", idx))
 	hookReset(r.U64(), true, false)
 	k := 1 + r.Intn(3)
+	extraHold := time.Duration(0)
+	if idx%2 == 1 {
+		// the node's write timeout is short and the link takes no output for several times as long (custom transports know
+		// no deadlines: the write lasts as long as the transport makes it last)
+		c13WriteTimeout = 20 * time.Millisecond
+		extraHold = 90 * time.Millisecond
+		defer func() { c13WriteTimeout = 0 }()
+		rep.Count("close_order_runs_with_stall_longer_than_write_timeout", 1)
+	}
 	n := c13start(rep, k, false, false)
 	if n == nil {
 		return
@@ -1223,7 +1236,7 @@ func c11closeOrder(rep *vh.Report, seed uint64, idx int) {
 	waitFor(func() bool { return n.trs[a].Blocked() > 0 }, func() int64 { return int64(n.trs[a].WriteCalls()) }, 300*time.Millisecond)
 	inWrite := n.trs[a].Blocked() > 0
 	n.trs[a].FeedError(errSession)
-	time.Sleep(time.Duration(5+r.Intn(30)) * time.Millisecond)
+	time.Sleep(time.Duration(5+r.Intn(30))*time.Millisecond + extraHold)
 	// the next channel of the endpoint, if it is there already, writes something of its own
 	for _, ci := range n.cons.openChannels() {
 		if ci.Tr == n.trs[a] && ci.Ch != old {
